@@ -477,6 +477,28 @@ func c05Families(thorough bool) []*engine.IFamily {
 				return out
 			}, false)},
 	}
+	// every function of every feature type, not only the LoadControl seeds: the commands FunctionDataCmd builds in
+	// all nine shapes (see C01's family of the same generator), delivered as read / reply / notify / write; here
+	// only "message handling returns without panicking" is judged
+	for _, f := range c01Families(thorough) {
+		if f.Name != "commands-built-by-the-api" {
+			continue
+		}
+		inner := f.Run
+		fams = append(fams, &engine.IFamily{Name: "every-function", Chunks: f.Chunks,
+			Rule: "for every function registered for every feature type: read, read+selector, read+elements, reply, notify and write in the shapes full, partial, partial+selector, delete+selector, delete+elements as built by FunctionDataCmd with reflectively generated selectors and elements, delivered to the matching local server / client feature that holds data; judged: no panic",
+			Run: func(chunk int) engine.IResult {
+				r := inner(chunk)
+				var keep []engine.IFail
+				for _, x := range r.Fails {
+					if strings.HasPrefix(x.Key, "panic in ") {
+						keep = append(keep, x)
+					}
+				}
+				r.Fails, r.NFails = keep, int64(len(keep))
+				return r
+			}})
+	}
 	if thorough {
 		fams = append(fams,
 			&engine.IFamily{Name: "single-mutants-then-all-seeds", Chunks: nSeeds * 8, Rule: "every single mutant followed by a replay of all 22 valid seeds on the same connection ((mutant, seed) ordered pairs) before the probes",
@@ -495,10 +517,63 @@ func c05Families(thorough bool) []*engine.IFamily {
 	return fams
 }
 
+// c05Scenarios: two peers deliver their messages at the same time (every connection has its own reader
+// goroutine). Each seed is delivered on A's connection while its counterpart (same message with B's
+// device address) is delivered on B's; discovery messages announce one feature of a vendor-specific type
+// this process has not seen before. Judged on every schedule: no panic, no deadlock, and — because an
+// unsynchronised access to shared memory during message handling is a crash waiting for two cores
+// ("fatal error: concurrent map writes") — no data race between the two message handlers.
+var c05Fresh int
+
+//go:norace
+func c05NextFresh() int { c05Fresh++; return c05Fresh }
+
+func c05Scenarios(thorough bool) []*engine.SScenario {
+	names := []string{"discovery-reply", "discovery-notify-add", "discovery-notify-full", "usecase-reply", "subscription-request", "binding-request", "read", "notify-partial-selector", "write-partial-selector", "result-error"}
+	if thorough {
+		names = nil
+	}
+	var scs []*engine.SScenario
+	for _, s := range seedsOnce() {
+		keep := names == nil
+		for _, n := range names {
+			keep = keep || n == s.name
+		}
+		if !keep {
+			continue
+		}
+		s := s
+		scs = append(scs, &engine.SScenario{Name: "A:" + s.name + " || B:" + s.name, Run: func(cfg rt.Config) rt.Outcome {
+			var viol []string
+			res := rt.Execute(cfg, func() {
+				c := newC05World(2)
+				fresh := fmt.Sprintf("Vendor%d", c05NextFresh())
+				rawA := []byte(strings.Replace(string(s.raw), `"featureType":"Measurement"`, `"featureType":"`+fresh+`A"`, 1))
+				rawB := []byte(strings.ReplaceAll(strings.Replace(string(s.raw), `"featureType":"Measurement"`, `"featureType":"`+fresh+`B"`, 1), `"dA"`, `"dB"`))
+				rt.BeginExplore()
+				rt.Go(func() { c.a.DeliverRaw(rawA) })
+				rt.Go(func() { c.b.DeliverRaw(rawB) })
+				rt.WaitIdle()
+				rt.JoinFinished()
+			})
+			for _, p := range res.Panics {
+				viol = append(viol, "panic in "+p.Frame+" | "+firstLine(p.Value))
+			}
+			if len(res.Deadlock) > 0 || res.Stuck {
+				viol = append(viol, fmt.Sprintf("message handling blocks forever | %v", res.Deadlock))
+			}
+			return rt.Outcome{Res: res, Violations: viol, Digest: fmt.Sprint(len(res.Panics))}
+		}})
+	}
+	return scs
+}
+
 func init() {
 	engine.Register(&engine.Check{
-		ID:       "C05",
-		Families: func(c *engine.Ctx) []*engine.IFamily { return c05Families(c.Thorough) },
+		ID:        "C05",
+		Families:  func(c *engine.Ctx) []*engine.IFamily { return c05Families(c.Thorough) },
+		NeedsRace: true,
+		Scenarios: func(c *engine.Ctx) []*engine.SScenario { return c05Scenarios(c.Thorough) },
 		Run: func(c *engine.Ctx) *engine.Report {
 			rep := &engine.Report{Level: "model_checking", Coverage: map[string]any{}}
 			engine.RunFamilies(c, c05Families(c.Thorough), rep)
@@ -507,6 +582,7 @@ func init() {
 			rep.Coverage["transitions"] = int(ev)
 			rep.Coverage["traces_validated_against_impl"] = int(ev)
 			rep.Coverage["seeds"] = 22
+			mergeS(c, rep, c05Scenarios(c.Thorough), engine.SPlan{Bounds: boundsFor(c, []int{0, 1}, []int{0, 1, 2}), Race: true, RaceMaxBound: 2, RaceProp: true})
 			rep.Assumptions = []string{"'all byte strings' is not enumerable: the claim covers all inputs within one (thorough: two) field-level deviations of 22 seed messages, all truncations, three connection states; every delivery runs under the controlled scheduler so that panics in goroutines the stack starts are caught and deadlocks are detected without wall-clock time"}
 			return rep
 		},
